@@ -440,6 +440,47 @@ class Program:
             self._refnames = t
         return t
 
+    def private_sentinel(self, module, name):
+        """`name` is a module global bound once to a fresh `object()` that never escapes: every reference to it in the
+        package is the right side of `local = name` or an operand of `is` / `is not` - so nothing handed in from outside
+        (a queue element, an argument) can be that object."""
+        cache = self.__dict__.setdefault("_sentinels", {})
+        key = (module.name, name)
+        if key in cache:
+            return cache[key]
+        ok = False
+        e = module.globals.get(name)
+        if isinstance(e, ast.Call) and isinstance(e.func, ast.Name) and e.func.id == "object" and not e.args and not e.keywords and name.startswith("_"):
+            ok = True
+            nbind = 0
+            for m in self.modules.values():
+                par = {}
+                for pn in ast.walk(m.tree):
+                    for ch in ast.iter_child_nodes(pn):
+                        par[id(ch)] = pn
+                for n in ast.walk(m.tree):
+                    if isinstance(n, ast.alias) and (n.name == name or n.asname == name):
+                        ok = False
+                    if isinstance(n, ast.Attribute) and n.attr == name:
+                        ok = False
+                    if isinstance(n, ast.Name) and n.id == name:
+                        if m is not module:
+                            ok = False
+                            continue
+                        pn = par.get(id(n))
+                        if isinstance(n.ctx, ast.Store):
+                            nbind += 1
+                        elif isinstance(pn, ast.Compare) and all(isinstance(o, (ast.Is, ast.IsNot)) for o in pn.ops):
+                            pass
+                        elif isinstance(pn, ast.Assign) and pn.value is n and all(isinstance(t, ast.Name) for t in pn.targets):
+                            pass
+                        else:
+                            ok = False
+            if nbind != 1:
+                ok = False
+        cache[key] = ok
+        return ok
+
     def normalise(self, anchor_names):
         """Rewrite every function into the normal form the rules are written
         against (inline.py): unknown private helpers inlined, locals given the
@@ -449,14 +490,18 @@ class Program:
         if getattr(self, "_normalised", False):
             return
         self._normalised = True
-        from .inline import flags_to_breaks, _attr_alias_candidates, expand_attribute_aliases, inline_new_constants, new_constants, alpha_normalise, expand_condition_locals, inline_new_temps, inlined, loops_from_filtered_generators, loops_from_quantifiers, outline_reference_temps, split_conditional_expressions
+        from .inline import attributes_from_constant_getattr, thread_exit_flags, drop_self_assignments, loops_from_primed, _fold_constant_tests, split_tuple_assignments, comprehensions_from_append_loops, loops_from_leading_breaks, flags_to_breaks, _attr_alias_candidates, expand_attribute_aliases, inline_new_constants, new_constants, alpha_normalise, expand_condition_locals, inline_new_temps, inlined, loops_from_filtered_generators, loops_from_quantifiers, outline_reference_temps, split_conditional_expressions
         anchor_names = frozenset(anchor_names)
         self.inline_anchors = anchor_names
 
-        def pred(callee):
-            n = callee.name
-            return n.startswith("_") and not n.startswith("__") and n not in anchor_names
         tab = self.reference_names()
+
+        def pred(callee):
+            # private helpers, and any function the reference tree does not have (a helper somebody extracted)
+            n = callee.name
+            if n in anchor_names or (n.startswith("__") and n.endswith("__")):
+                return False
+            return (n.startswith("_") and not n.startswith("__")) or callee.qual not in tab
         self.normal_form_log = {}
         # innermost functions first, so a parent is copied with its closures already rewritten
         order = sorted(self.functions.values(), key=lambda f: -f.qual.count("."))
@@ -482,10 +527,18 @@ class Program:
         self.normal_form_constants = {"globals": {k: sorted(v) for k, v in gl.items()}, "class_attrs": {k: sorted(v) for k, v in ca.items()}}
         for f in order:
             nf = inlined(self, f, pred=pred)
+            if getattr(nf, "inlined_from", None):
+                nf = drop_self_assignments(nf)
+                nf = attributes_from_constant_getattr(nf)
+            nf = split_tuple_assignments(nf)
+            nf = comprehensions_from_append_loops(nf, set(tab.get(f.qual, {}).get("keys", {}).values()))
             nf = inline_new_constants(nf, gl, ca)
             nf = split_conditional_expressions(nf)
+            nf = drop_self_assignments(nf)
             nf = loops_from_quantifiers(nf)
             nf = flags_to_breaks(nf)
+            nf = loops_from_leading_breaks(nf)
+            nf = loops_from_primed(nf)
             nf, ren = alpha_normalise(nf, tab)
             keep = set(tab.get(f.qual, {}).get("keys", {}).values())
             if f.qual in tab:
@@ -508,6 +561,9 @@ class Program:
             nf = expand_condition_locals(nf, self.stable_attr, keep)
             if nf is f:
                 continue
+            if getattr(nf, "inlined_from", None):
+                _fold_constant_tests(nf.node)  # `t = True; if t:` left behind by an inlined predicate
+                ast.fix_missing_locations(nf.node)
             self.normal_form_log[f.qual] = {"inlined": list(getattr(nf, "inlined_from", [])), "renamed": dict(ren)}
             self._replace_node(f, nf.node)
         for k in ("_callgraph", "_locks", "_roles"):
@@ -543,6 +599,16 @@ class Program:
                 if h.node in h.module.toplevel:
                     h.module.toplevel.remove(h.node)
             self.normal_form_log.setdefault(q, {})["removed"] = True
+        # decisions taken under a lock and acted upon after it (flag / sentinel): threaded now that expanded helpers are
+        # gone - whether a sentinel escapes is judged on the tree as it is after normalisation
+        for f in sorted(self.functions.values(), key=lambda f: -f.qual.count(".")):
+            nf = thread_exit_flags(f, sentinel_ok=lambda nm, _m=f.module: self.private_sentinel(_m, nm))
+            if nf is not f:
+                self.normal_form_log.setdefault(f.qual, {}).setdefault("inlined", [])
+                self.normal_form_log[f.qual]["threaded"] = True
+                self._replace_node(f, nf.node)
+        for k in ("_callgraph", "_locks", "_roles"):
+            self.__dict__.pop(k, None)
 
     def _replace_node(self, f, new):
         old = f.node
